@@ -194,6 +194,10 @@ EXTRACT = [
     ("disasm/6800.cpp", r"^(?:extern \"C\" )?void disasm_range_6800\(", "disasm_range_6800.inc"),
     ("disasm/6809.cpp", r"^(?:extern \"C\" )?void disasm_range_6809\(", "disasm_range_6809.inc"),
     ("disasm/68hc08.cpp", r"^(?:extern \"C\" )?void disasm_range_68hc08\(", "disasm_range_68hc08.inc"),
+    ("asm/riscv.cpp", r"^static uint32_t permutate_branch\(", "riscv_asm_permutate_branch.inc"),
+    ("asm/riscv.cpp", r"^static uint32_t permutate_jal\(", "riscv_asm_permutate_jal.inc"),
+    ("disasm/riscv.cpp", r"^static int32_t permutate_branch\(", "riscv_dis_permutate_branch.inc"),
+    ("disasm/riscv.cpp", r"^static int32_t permutate_jal\(", "riscv_dis_permutate_jal.inc"),
     ("core/AsmContext.cpp", r"^int AsmContext::link\(\)", "AsmContext_link.inc"),
     ("core/Linker.cpp", r"^uint8_t \*Linker::get_code_from_symbol\(", "Linker_get_code_from_symbol.inc"),
     ("core/UtilContext.cpp", r"^void UtilContext::print8\(const char \*token\)", "UtilContext_print8.inc"),
